@@ -2,7 +2,7 @@ package main
 
 // Replay of TLC-generated registration sequences (spec/Registry.tla) on the REAL singleton registry.
 // Objects 1..4: 1 and 2 share a custom name, 3 has its own custom name, 4 and 5 are two instances of one type
-// without a custom name (same default name).
+// without a custom name (same default name), 6 and 7 are two field-less types sharing a custom name (and, in Go, an address).
 
 import (
 	"bufio"
@@ -23,8 +23,15 @@ func (r *regNamed) Naming() string { return r.name }
 
 type regPlain struct{ id int }
 
+// two DIFFERENT field-less component types under one custom name: distinct components that share their address
+type regZ1 struct{}
+type regZ2 struct{}
+
+func (*regZ1) Naming() string { return "zname" }
+func (*regZ2) Naming() string { return "zname" }
+
 func regObjects() map[int]any {
-	return map[int]any{1: &regNamed{1, "shared"}, 2: &regNamed{2, "shared"}, 3: &regNamed{3, "own"}, 4: &regPlain{4}, 5: &regPlain{5}}
+	return map[int]any{1: &regNamed{1, "shared"}, 2: &regNamed{2, "shared"}, 3: &regNamed{3, "own"}, 4: &regPlain{4}, 5: &regPlain{5}, 6: &regZ1{}, 7: &regZ2{}}
 }
 
 var regNames = map[string]string{"shared": "shared", "own": "own", "plain": "verifharness-default"}
